@@ -62,11 +62,7 @@ CONSTANTS
   MaxFaults = 100
   UserMayCancel = TRUE
   UserMayCtrlC = TRUE
-''' + INVS + '''INVARIANT R_DestNeverPartial
-INVARIANT R_AgreesAtDone
-INVARIANT R_ResultTruthful
-INVARIANT R_AllDoneAfterShutdown
-CONSTRAINT Progress
+%(invs)sCONSTRAINT Progress
 POSTCONDITION Final
 CHECK_DEADLOCK FALSE
 '''
@@ -148,8 +144,17 @@ def _work(jobs):
     return [_run(j) for j in jobs]
 
 
-def validate(traces, geometry):
+TRACE_INVS = INVS + '''INVARIANT R_DestNeverPartial
+INVARIANT R_AgreesAtDone
+INVARIANT R_ResultTruthful
+INVARIANT R_AllDoneAfterShutdown
+'''
+
+
+def validate(traces, geometry, invs=None):
     workers, jobs = geometry
+    inv_lines = TRACE_INVS if invs is None else ''.join(
+        f'INVARIANT {i}\n' for i in invs)
     d = tempfile.mkdtemp(prefix='verif-c19-')
     try:
         path = os.path.join(d, 'traces.ndjson')
@@ -157,7 +162,7 @@ def validate(traces, geometry):
             for t in traces:
                 f.write(json.dumps(t) + '\n')
         wn = [f'w{i + 1}' for i in range(workers)]
-        cfg = TRACE_CFG % dict(workers=q(wn), nd=len(jobs))
+        cfg = TRACE_CFG % dict(workers=q(wn), nd=len(jobs), invs=inv_lines)
         r = tlc.run_tlc('MC_ProcessPool_Trace', cfg, workers=1,
                         env={'TRACE_FILE': path}, timeout=3000,
                         files={'MC_ProcessPool_Trace.tla': TRACE_MODULE % fn(jobs)})
@@ -178,6 +183,44 @@ def run(tier, seed):
         'one case per deterministic in-process execution of the process-pool '
         'protocol (geometry x fault x cancel/Ctrl-C point x schedule); '
         'distinct = distinct event traces; all non-trivial')
+    model_part(ck, thorough)
+    geos = [(2, (3, 1)), (1, (2,)), (3, (4,)), (2, (1, 2)), (1, (1, 3))]
+    if thorough:
+        geos += [(2, (2, 2)), (3, (3, 3)), (1, (4,)), (2, (4, 1))]
+    total = traces_part(ck, rng, geos, thorough)
+    pipeline.close_pool()
+    ck.require_nonvacuous('process-pool traces', total, 100)
+    ck.assumptions += ASSUMPTIONS
+    return ck.finish()
+
+
+ASSUMPTIONS = [
+    'real OS processes, pickling and the multiprocessing manager are not '
+    'exercised: the process-pool protocol is replayed in one process; each '
+    'monitor call is atomic (one hop)',
+    'zero-size objects are not used with the process pool: '
+    'OSUtils.allocate(name, 0) fails on Linux (observation O1 in DESIGN.md)',
+]
+
+
+def facet(ck, tier, seed, invs, prefix):
+    """The process-pool downloader's part of another property: the same
+    executions and the same trace specification, with ``invs`` as the
+    invariants; a violated invariant is reported as clause prefix+name."""
+    thorough = tier == 'thorough'
+    rng = random.Random(seed * 101 + 19 + int(ck.pid[1:]))
+    geos = [(2, (3, 1)), (1, (2,)), (2, (1, 2))]
+    if thorough:
+        geos += [(3, (4,)), (2, (2, 2)), (1, (1, 3))]
+    n = traces_part(ck, rng, geos, thorough, invs=invs, prefix=prefix)
+    ck.coverage.setdefault('families', {})['process-pool'] = n
+    for a in ASSUMPTIONS:
+        if a not in ck.assumptions:
+            ck.assumptions.append(a)
+    return n
+
+
+def model_part(ck, thorough):
     # 1. model checking
     mcs = [((['w1', 'w2'], [2, 1]), 1, True, True),
            ((['w1'], [3]), 1, True, True),
@@ -196,10 +239,10 @@ def run(tier, seed):
         for v in r.violated:
             ck.violation(v, {'component': 'model', 'geometry': [wn, jobs],
                              'cex': r.cex[-2500:]})
+
+
+def traces_part(ck, rng, geos, thorough, invs=None, prefix=''):
     # 2. traces of the real code
-    geos = [(2, (3, 1)), (1, (2,)), (3, (4,)), (2, (1, 2)), (1, (1, 3))]
-    if thorough:
-        geos += [(2, (2, 2)), (3, (3, 3)), (1, (4,)), (2, (4, 1))]
     total = 0
     for geo in geos:
         jobs = scenarios(rng, geo, 6 if thorough else 3, thorough)
@@ -219,6 +262,8 @@ def run(tier, seed):
             ck.distinct(r['trace']['ev'])
             if r['failure']:
                 sc = jobs[r['jid']][0]
+                if invs is not None:
+                    continue
                 ck.violation('C19_EveryDownloadEventuallyDone', {
                     'component': 'processpool', 'detail': r['failure'],
                     'info': r['failure_info'], 'scenario': sc},
@@ -226,7 +271,7 @@ def run(tier, seed):
                             'chooser': jobs[r['jid']][1]})
         groups = [good[i:i + 300] for i in range(0, len(good), 300)]
         with ThreadPoolExecutor(max_workers=6) as ex:
-            outs = list(ex.map(lambda g: validate([r['trace'] for r in g], geo), groups))
+            outs = list(ex.map(lambda g: validate([r['trace'] for r in g], geo, invs), groups))
         for g, (reached, r) in zip(groups, outs):
             ck.add_tlc(f'ProcessPool_Trace geo={geo} x{len(g)}', r, exhaustive=False)
             if r.violated:
@@ -236,7 +281,7 @@ def run(tier, seed):
                 tidx = int(m[-1]) - 1 if m else 0
                 rr = g[tidx] if tidx < len(g) else g[0]
                 sc = jobs[rr['jid']][0]
-                ck.violation(r.violated[0], {
+                ck.violation(prefix + r.violated[0], {
                     'component': 'processpool', 'scenario': sc,
                     'results': rr['results'], 'cex_tail': r.cex[-1500:]},
                     replay={'kind': 'c19', 'scenario': sc,
@@ -248,10 +293,22 @@ def run(tier, seed):
                     ck.machinery_errors.append('trace without verdict')
                     break
                 if rc[0] <= rc[1] and not rr['failure']:
+                    fs_kinds = ('w_rename', 'w_remove', 'w_done', 'alloc', 'snap', 'sub_done')
+                    if invs is not None and prefix.startswith('C06') and \
+                            rc[0] <= len(rr['trace']['ev']) and \
+                            rr['trace']['ev'][rc[0] - 1].get('k') in fs_kinds:
+                        # the order of allocate / rename / remove / notify_done
+                        # is the publication protocol C06 is about
+                        pass
+                    elif invs is not None:
+                        # conformance to the rest of the protocol is C19's business
+                        o = ck.coverage.setdefault('other_property_clauses_failed', {})
+                        o['C19_TraceConformance'] = o.get('C19_TraceConformance', 0) + 1
+                        continue
                     evs = rr['trace']['ev']
                     at = evs[rc[0] - 1] if 0 < rc[0] <= len(evs) else None
                     sc = jobs[rr['jid']][0]
-                    ck.violation('C19_TraceConformance', {
+                    ck.violation((prefix or 'C19_') + 'TraceConformance', {
                         'component': 'processpool', 'scenario': sc,
                         'detail': f'event {rc[0]} of {rc[1]} is not a step of '
                                   f'ProcessPool.tla: {at}',
@@ -264,18 +321,9 @@ def run(tier, seed):
                        'events_head': [
                            {k: v for k, v in e.items() if v not in ('', 0, True, -1)}
                            for e in good[0]['trace']['ev'][:14]]}, limit=3)
-    pipeline.close_pool()
     ck.coverage['traces_validated_against_impl'] += total
     ck.coverage['evaluations'] += total
-    ck.require_nonvacuous('process-pool traces', total, 100)
-    ck.assumptions += [
-        'real OS processes, pickling and the multiprocessing manager are not '
-        'exercised: the protocol is replayed in one process; each monitor '
-        'call is atomic (one hop)',
-        'zero-size objects are not used: OSUtils.allocate(name, 0) fails on '
-        'Linux (observation O1 in DESIGN.md)',
-    ]
-    return ck.finish()
+    return total
 
 
 def replay(path):
